@@ -45,6 +45,11 @@ fn main() {
         sched_demo(&args[2]);
         return;
     }
+    if args[1] == "pipedemo" {
+        install_panic_hook();
+        pipe_demo(&args[2]);
+        return;
+    }
     if args[1] == "bench" {
         install_panic_hook();
         bench_vsys();
@@ -172,5 +177,21 @@ pub fn sched_demo(script: &str) {
         for o in outs.iter().take(4) {
             println!("  {:?}", o);
         }
+    }
+}
+
+#[allow(dead_code)]
+pub fn pipe_demo(text: &str) {
+    let mut s = vsys::Setup::script("");
+    s.argv = vec!["yash".into()];
+    s.stdin_pipe = Some(vec![text.as_bytes().to_vec()]);
+    let r = vsys::run(&s);
+    println!("finished={} deadlock={} steps={} status={}", r.finished, r.log.deadlock, r.log.steps, r.status);
+    println!("stdout={:?} stderr={:?} trace={:?}", r.stdout, r.stderr, r.trace);
+    for p in &r.procs {
+        println!("{p:?}");
+    }
+    if let Some(p) = r.panic {
+        println!("PANIC {p}");
     }
 }
